@@ -4,6 +4,9 @@ import ClusterVerif.Model.C14Source
 import ClusterVerif.Gen.C14
 import ClusterVerif.Model.C14Start
 import ClusterVerif.Spec.C14Start
+import ClusterVerif.Lemmas.C14Start
+import ClusterVerif.Model.C14Snaps
+import ClusterVerif.Lemmas.C14Snaps
 
 /-!
 # C14 — state export/import, snapshots, backups and the peerstore file round-trip
@@ -906,12 +909,190 @@ theorem sameSet_iff (a b : List Nat) : sameSet a b = true ↔ a.foldr insS [] = 
   simp [sameSet]
 
 /-- "a killed peer starts with everything it committed": `start (build ops false)` is the pinset the operations
-    give. Validated by the correspondence run only (`restart` arms of the start suite); not proved. -/
+    give. Proved in round 8b (`restart_keeps_state_full_holds`). -/
 def restart_keeps_state_full : Prop :=
   ∀ ops : List Start.Op, Start.start (Start.build ops false) =
     (ops.foldl (fun st o => match o with | .pin c => Start.ins c st | .unpin c => Start.del c st | .restart => st) [])
 
+/-- the index invariant holds of every folder the single-voter peer writes: all indices positive and at most the last
+    log index, every command entry at or before `cmdIdx` — after ANY sequence of pins, unpins and graceful restarts,
+    killed or shut down -/
+theorem build_index_invariant (ops : List Start.Op) (graceful : Bool) :
+    ∃ r, Start.build ops graceful = some r ∧ Start.Inv r := by
+  cases graceful with
+  | false => exact ⟨_, rfl, Start.inv_runOps _ ops Start.inv_boot_none⟩
+  | true => exact ⟨_, rfl, Start.inv_shutdown _ (Start.inv_runOps _ ops Start.inv_boot_none)⟩
+
+/-- `restart_keeps_state`, whole histories, KILLED peer: the peer started again on the folder (newest snapshot + replay
+    of the log behind its index) serves exactly what the operations give — for every sequence of pins, unpins and
+    graceful restarts. (Was a `def … : Prop` validated by the correspondence run only.) -/
+theorem restart_keeps_state_full_holds : restart_keeps_state_full := by
+  intro ops
+  have h := Start.startR_runOps (Start.boot none) ops Start.inv_boot_none
+  have h0 : Start.startR (Start.boot none) = [] := by decide
+  rw [h0] at h
+  simp only [Start.start, Start.build, Bool.false_eq_true, if_false]
+  rw [h]
+  apply Start.foldl_congr_fun
+  intro st o; cases o <;> rfl
+
+example : Start.start (Start.build [.pin 3, .pin 5, .restart, .unpin 3, .restart, .restart, .pin 7] false) = [5, 7] := by decide
+
+/-- … and the peer that was SHUT DOWN (snapshot at the index of its last command, no-ops behind it) -/
+theorem restart_keeps_state_graceful (ops : List Start.Op) :
+    Start.start (Start.build ops true) = ops.foldl Start.specStep [] := by
+  have hi := Start.inv_runOps (Start.boot none) ops Start.inv_boot_none
+  have h := Start.startR_runOps (Start.boot none) ops Start.inv_boot_none
+  have h0 : Start.startR (Start.boot none) = [] := by decide
+  rw [h0] at h
+  simp only [Start.start, Start.build, if_true]
+  rw [Start.startR_shutdown _ hi, h]
+
+/-- `snapshot_offline_id` for the snapshot a peer takes itself: after a graceful shutdown of a peer that committed at
+    least one pin or unpin, the OFFLINE read (`state export` of a stopped peer) is exactly what the operations give -/
+theorem graceful_offline_id (ops : List Start.Op) (hc : ops.any Start.Op.isCmd = true) :
+    Start.offline (Start.build ops true) = ops.foldl Start.specStep [] := by
+  have hi := Start.inv_runOps (Start.boot none) ops Start.inv_boot_none
+  have h := Start.startR_runOps (Start.boot none) ops Start.inv_boot_none
+  have h0 : Start.startR (Start.boot none) = [] := by decide
+  rw [h0] at h
+  have hp := Start.fsmIdx_pos _ hi (Start.cmd_in_log (Start.boot none) ops hc)
+  simp only [Start.build, if_true, Start.shutdown, hp, if_false, Start.offline, h]
+
+example : ([Start.Op.restart, .pin 4, .unpin 9] : List Start.Op).any Start.Op.isCmd = true := by decide
+
+/-- the offline read of a KILLED peer's folder is NOT what it served (it lags by the log): the alternative reading
+    "export of a killed peer's folder = its pinset" is refuted — one committed pin, killed -/
+def killed_offline_id : Prop := ∀ ops : List Start.Op, Start.offline (Start.build ops false) = ops.foldl Start.specStep []
+
+theorem killed_offline_id_fails : ¬ killed_offline_id := by
+  intro h
+  have := h [.pin 3]
+  revert this
+  decide
+
+/-- a committed entry is applied on top of what the peer serves, whatever the folder holds (any snapshot, any log):
+    the per-step form of the identity -/
+theorem commit_applies (r : Start.Raft) (e : Start.Entry) :
+    Start.startR (Start.commit r e) = Start.applyE (Start.startR r) e := Start.startR_commit r e
+
+/-- "a snapshot with a higher index than part of the log": the started peer ignores every log entry at or before the
+    snapshot index, whatever it says — only the suffix behind the snapshot is replayed (so `SnapshotSave`'s choice of the
+    index decides how much of a log that is still in the folder comes back) -/
+theorem start_ignores_log_before_snapshot (i : Nat) (s : List Nat) (l : List (Nat × Start.Entry)) :
+    Start.startR { snap := some (i, s), log := l } =
+    Start.startR { snap := some (i, s), log := l.filter (fun x => decide (i < x.1)) } := by
+  simp only [Start.startR]; exact (Start.replay_filter s i l).symm
+
+example : Start.startR { snap := some (3, [7]), log := [(1, .cfg), (2, .pin 1), (3, .pin 2), (4, .pin 5), (5, .unpin 7)] } = [5] := by decide
+
 end StartTheorems
+
+/-! ## a data folder holding several snapshots and leftovers (round 8b, `Model/C14Snaps.lean`) -/
+section SnapsTheorems
+
+/-- WHICH snapshot `LastStateRaw`/`OfflineState` read: one of the folder's readable snapshots such that none is newer
+    by (term, index) — whatever else is in `snapshots/` (`*.tmp` directories, unreadable metadata, files) -/
+theorem offline_reads_newest (l : List Snaps.Item) (c : Nat) (h : Snaps.offline (some l) = some c) :
+    ∃ m ∈ Snaps.snapsOf l, m.pin = c ∧ ∀ x ∈ Snaps.snapsOf l, Snaps.newer x m = false := by
+  simp only [Snaps.offline, Snaps.latest, Option.map_eq_some_iff] at h
+  obtain ⟨m, hm, hc⟩ := h
+  obtain ⟨h1, h2⟩ := Snaps.newest_spec _ m hm
+  exact ⟨m, h1, hc, h2⟩
+
+example : Snaps.offline (some [.snap ⟨2, 5, 7⟩, .tmp, .snap ⟨10, 3, 8⟩, .badmeta, .snap ⟨9, 11, 9⟩, .file]) = some 8 := by decide
+
+/-- the directory listing order (creation order, name order) does not matter: for distinct (term, index) pairs every
+    permutation of the snapshots gives the same newest one -/
+theorem newest_perm (l₁ l₂ : List Snaps.Snap) (hp : l₁.Perm l₂) (hd : Snaps.KeysDistinct l₁) :
+    Snaps.newest l₁ = Snaps.newest l₂ := by
+  cases h1 : Snaps.newest l₁ with
+  | none =>
+    have hl := (Snaps.newest_none_iff l₁).mp h1
+    subst hl
+    have hlen := hp.length_eq
+    cases l₂ with
+    | nil => rfl
+    | cons a t => simp at hlen
+  | some m1 =>
+    cases h2 : Snaps.newest l₂ with
+    | none =>
+      have hl := (Snaps.newest_none_iff l₂).mp h2
+      subst hl
+      have hlen := hp.length_eq
+      cases l₁ with
+      | nil => simp [Snaps.newest] at h1
+      | cons a t => simp at hlen
+    | some m2 =>
+      obtain ⟨hm1, ha1⟩ := Snaps.newest_spec _ _ h1
+      obtain ⟨hm2, ha2⟩ := Snaps.newest_spec _ _ h2
+      have e1 := ha1 m2 (hp.mem_iff.mpr hm2)
+      have e2 := ha2 m1 (hp.mem_iff.mp hm1)
+      rw [Snaps.newer_false_iff] at e1 e2
+      have : m1 = m2 := hd m1 hm1 m2 (hp.mem_iff.mpr hm2) (by omega) (by omega)
+      rw [this]
+
+example : Snaps.KeysDistinct [⟨2, 5, 7⟩, ⟨10, 3, 8⟩, ⟨9, 11, 9⟩] := by
+  intro x hx y hy; simp at hx hy; rcases hx with rfl | rfl | rfl <;> rcases hy with rfl | rfl | rfl <;> simp
+
+/-- `snapshot_offline_id` onto EVERY pre-existing folder content (absent, empty, leftovers only, one snapshot, several
+    snapshots in any order with leftovers in between): the offline read after `SnapshotSave c` is `c` -/
+theorem save_offline_id_multi (f : Snaps.Folder) (c : Nat) : Snaps.offline (Snaps.save f c).1 = some c := by
+  unfold Snaps.save
+  cases h : Snaps.latest f with
+  | none =>
+    simp only [Snaps.offline, Snaps.latest, Snaps.snapsOf_append, Snaps.latest_none_snapsOf f h, Snaps.snapsOf,
+      List.nil_append, Snaps.newest_singleton, Option.map_some]
+  | some n => rfl
+
+/-- a folder with a readable snapshot goes to old.0 WHOLE (every older snapshot, every leftover); the new data folder
+    holds exactly one snapshot, which carries the term and index of the previous newest one -/
+theorem save_backs_up_all (f : Snaps.Folder) (c : Nat) (n : Snaps.Snap) (h : Snaps.latest f = some n) :
+    (Snaps.save f c).2 = f ∧ (Snaps.save f c).1 = some [.snap ⟨n.term, n.index, c⟩] ∧ Snaps.count (Snaps.save f c).1 = 1 := by
+  simp [Snaps.save, h, Snaps.count, Snaps.snapsOf]
+
+/-- no readable snapshot: no backup, nothing removed, the new snapshot is (term 1, index 2) and is the one read -/
+theorem save_fresh (f : Snaps.Folder) (c : Nat) (h : Snaps.latest f = none) :
+    (Snaps.save f c).2 = none ∧ Snaps.latest (Snaps.save f c).1 = some ⟨1, 2, c⟩ ∧ Snaps.count (Snaps.save f c).1 = 1 := by
+  have hs : Snaps.save f c = (some (f.getD [] ++ [.snap ⟨1, 2, c⟩]), none) := by simp only [Snaps.save, h]
+  have hl := Snaps.latest_none_snapsOf f h
+  rw [hs]
+  simp only [Snaps.latest, Snaps.count, Snaps.snapsOf_append, hl, Snaps.snapsOf, List.nil_append,
+    Snaps.newest_singleton, List.length_singleton, and_self]
+
+/-- `CleanupRaft`: a folder with a readable snapshot becomes old.0 as it is, otherwise it is removed without backup -/
+theorem cleanup_multi (f : Snaps.Folder) :
+    (Snaps.cleanup f).1 = none ∧ (Snaps.cleanup f).2 = (if (Snaps.latest f).isSome then f else none) := by
+  unfold Snaps.cleanup; cases h : Snaps.latest f <;> simp
+
+/-- alternatives a wrong edit implements, refuted: "the snapshot with the highest INDEX" (ignoring the term) … -/
+def newest_is_highest_index : Prop := ∀ l : List Snaps.Snap, Snaps.newest l = Snaps.newestByIndex l
+theorem newest_is_highest_index_fails : ¬ newest_is_highest_index := by
+  intro h; have := h [⟨2, 5, 1⟩, ⟨1, 9, 2⟩]; revert this; decide
+
+/-- … and "the LAST of the list" (`snapMetas[len-1]`, the oldest) -/
+def newest_is_oldest : Prop := ∀ l : List Snaps.Snap, Snaps.newest l = Snaps.oldest l
+theorem newest_is_oldest_fails : ¬ newest_is_oldest := by
+  intro h; have := h [⟨1, 2, 1⟩, ⟨1, 9, 2⟩]; revert this; decide
+
+/-- SEMANTIC tie (regenerated from the syntax tree of consensus/raft/raft.go on every run, `Gen.Sem`): the facts the folder
+    models rest on — `latestSnapshot` opens element 0 of the newest-first list (`Snaps.newest`), `SnapshotSave` with a snapshot
+    present cleans and copies `meta.Index`/`meta.Term` (`Snaps.save`, `Start.snapshotSave`), its fresh-start branch writes
+    (term 1, index 2) and does not clean, `CleanupRaft` removes exactly the folder without readable snapshot and returns.
+    A harmless rewrite changes none of these; a change of any of them fails here (and the `snaps`/`start` suites give the input). -/
+theorem gen_sem_snapshot_folder :
+    (Gen.Sem.latestOpenIndex, Gen.Sem.saveMetaBranchCleans, Gen.Sem.saveMetaIndexExpr, Gen.Sem.saveMetaTermExpr,
+     Gen.Sem.saveFreshIndex, Gen.Sem.saveFreshTerm, Gen.Sem.cleanupEmptyCond, Gen.Sem.cleanupEmptyArm) =
+    (some 0, true, "meta.Index", "meta.Term", some 2, some 1, "meta == nil && err == nil",
+     ["os.RemoveAll(dataFolder)", "return"]) := rfl
+
+/-- … and the model's fresh-start snapshot IS the one with the regenerated constants -/
+theorem gen_sem_fresh_matches_model (c : Nat) :
+    Snaps.latest (Snaps.save none c).1 =
+      some ⟨Gen.Sem.saveFreshTerm.getD 0, Gen.Sem.saveFreshIndex.getD 0, c⟩ := by
+  simp [Snaps.save, Snaps.latest, Snaps.snapsOf, Snaps.newest, Snaps.pick, Gen.Sem.saveFreshTerm, Gen.Sem.saveFreshIndex]
+
+end SnapsTheorems
 
 /-! ### The anchored functions still read as the model was transcribed (regenerated from /repo on every run) -/
 
